@@ -265,6 +265,114 @@ def C19(V, tier):
         V.sample({"case": recs[0]["id"], "cores": recs[0]["cores"], "blocks": recs[0]["dumps"][0]["blocks"][:2]})
 
 
+# ------------------------------------------------------------------------------------------------
+# C03: routing per connection kind
+
+def routing_templates():
+    """Programs whose block boundaries are created by ONE API call each, with the promise of that
+    call (rule) attached: probe = last operator before the boundary, after = probes behind it."""
+    T = []
+
+    def src(i, lo=0, hi=40):
+        return {"id": i, "op": "src", "kind": "par_range", "lo": lo, "hi": hi}
+
+    def snk(i, x, kind="collect_vec"):
+        return {"id": i, "op": "sink", "kind": kind, "in": [x]}
+    T.append(("shuffle", [src("s"), {"id": "m", "op": "map", "f": "inc", "in": ["s"]},
+                          {"id": "sh", "op": "shuffle", "in": ["m"]}, snk("k", "sh")],
+              [{"probe": "m", "kind": "random", "after": ["sh"]}]))
+    for mod in (1, 2, 3, 7):
+        T.append((f"group_by{mod}", [src("s"), {"id": "m", "op": "map", "f": "mul3p1", "in": ["s"]},
+                                     {"id": "g", "op": "group_by", "m": mod, "in": ["m"]},
+                                     {"id": "f", "op": "kfold", "agg": "sum", "in": ["g"]}, snk("k", "f")],
+                  [{"probe": "m", "kind": "groupby", "m": mod, "after": ["g"]}]))
+    for r in ("one", "unlimited", "host", "limited:2", "limited:3"):
+        T.append((f"replicate_{r}", [src("s"), {"id": "m", "op": "map", "f": "inc", "in": ["s"]},
+                                     {"id": "r", "op": "replicate", "repl": r, "in": ["m"]}, snk("k", "r")],
+                  [{"probe": "m", "kind": "forward", "after": ["r"]}]))
+    # forward after a shuffle (producer unlimited, consumer unlimited): same index
+    T.append(("shuffle_forward", [src("s"), {"id": "sh", "op": "shuffle", "in": ["s"]},
+                                  {"id": "m", "op": "map", "f": "inc", "in": ["sh"]},
+                                  {"id": "r", "op": "replicate", "repl": "unlimited", "in": ["m"]},
+                                  snk("k", "r", "collect_count")],
+              [{"probe": "s", "kind": "random", "after": ["sh"]}, {"probe": "m", "kind": "forward", "after": ["r"]}]))
+    T.append(("broadcast", [src("s", 0, 12), {"id": "m", "op": "map", "f": "inc", "in": ["s"]},
+                            {"id": "b", "op": "broadcast", "in": ["m"]}, snk("k", "b")],
+              [{"probe": "m", "kind": "all", "after": ["b"]}]))
+    for ml, mr in ((2, 3), (5, 5), (1, 4)):
+        T.append((f"join_hash_{ml}_{mr}",
+                  [src("l", 0, 30), {"id": "ml", "op": "map", "f": "inc", "in": ["l"]},
+                   src("r", 5, 25), {"id": "mr", "op": "map", "f": "mul3p1", "in": ["r"]},
+                   {"id": "j", "op": "join", "ship": "hash", "local": "hash", "variant": "outer", "ml": ml, "mr": mr,
+                    "in": ["ml", "mr"]}, snk("k", "j")],
+                  # equal join keys of both sides must meet on one replica: the two rules share a key space.
+                  # The key of an element is its payload mod ml (left) / mod mr (right); both sides agree
+                  # on a replica when the key VALUES agree, so both rules use the value itself as key space
+                  [{"probe": "ml", "kind": "groupby", "m": ml, "keyspace": "j", "after": ["j"]},
+                   {"probe": "mr", "kind": "groupby", "m": mr, "keyspace": "j", "after": ["j"]}]))
+    T.append(("join_bcast",
+              [src("l", 0, 30), {"id": "ml", "op": "map", "f": "inc", "in": ["l"]},
+               src("r", 5, 15), {"id": "mr", "op": "map", "f": "mul3p1", "in": ["r"]},
+               {"id": "j", "op": "join", "ship": "bcast", "local": "hash", "variant": "left", "ml": 3, "mr": 3,
+                "in": ["ml", "mr"]}, snk("k", "j")],
+              [{"probe": "ml", "kind": "forward", "after": ["j"]}, {"probe": "mr", "kind": "all", "after": ["j"]}]))
+    for preds in (["odd", "lt50"], ["lt50", "all"], ["none", "even", "ge5"]):
+        nodes = [src("s", 0, 70), {"id": "m", "op": "map", "f": "inc", "in": ["s"]},
+                 {"id": "rt", "op": "route", "preds": preds, "in": ["m"]}]
+        for i in range(len(preds)):
+            nodes.append(snk(f"k{i}", f"rt.{i}"))
+        T.append(("route_" + "_".join(preds), nodes,
+                  [{"probe": "m", "kind": "route", "preds": preds, "after": [f"rt.{i}" for i in range(len(preds))]}]))
+    # key_by + keyed merge: forward with two producers blocks
+    T.append(("zip", [{"id": "a", "op": "src", "kind": "iter", "data": list(range(20))},
+                      {"id": "b", "op": "src", "kind": "iter", "data": list(range(30, 45))},
+                      {"id": "z", "op": "zip", "in": ["a", "b"]}, snk("k", "z")],
+              [{"probe": "a", "kind": "forward", "after": ["z"]}, {"probe": "b", "kind": "forward", "after": ["z"]}]))
+    return T
+
+
+def C03(V, tier):
+    from common import read_trace, split_trace_files, validate_parallel
+    import project
+    wd = workdir("C03")
+    rng = random.Random(seed())
+    T = routing_templates()
+    progs = []
+    rules = {}
+    for name, nodes, rl in T:
+        sinks = {n["id"]: {"kind": n["kind"], "ordered": False} for n in nodes if n["op"] == "sink"}
+        progs.append({"name": name, "prog": {"nodes": nodes}, "sinks": sinks, "rules": rl})
+    locals_ = [{"mode": "local", "par": p} for p in (1, 2, 3, 4)]
+    remotes = [{"mode": "remote", "hosts": h} for h in ([1, 1], [2, 1], [1, 2], [2, 2], [1, 1, 1], [3, 1])]
+    if tier == "quick":
+        matrix = [(c, "fixed:3") for c in locals_] + [(c, "default") for c in rng.sample(remotes, 3)]
+    else:
+        matrix = [(c, b) for c in locals_ + remotes for b in ("single", "default")]
+    results, traces, jobs_by_id = jobsuite.run_suite(V, wd, progs, matrix, "C03", checks=(), trace=True,
+                                                     perturb_us=0)
+    for jid in jobs_by_id:
+        rules[jid] = next(p["rules"] for p in progs if p["name"] == jid.split("#")[0])
+    files = []
+    nem = 0
+    for ti, t in enumerate(traces):
+        recs = list(project.routing_records(read_trace(t), results, rules))
+        nem += sum(1 for r in recs if r["ev"] == "emit")
+        files += split_trace_files(recs, wd, f"routing_{ti}")
+    viols, consumed, states, _ = validate_parallel("Routing", files, wd)
+    V.coverage["states"] += states
+    V.coverage["transitions"] += states
+    V.coverage["emissions_checked"] = nem
+    V.coverage["templates"] = [t[0] for t in T]
+    for v in viols:
+        v2 = dict(v)
+        ex = v.get("extra", {})
+        if v["kind"] == "data_fanout" and ex.get("rule") == "forward" and ex.get("got") == 0 \
+                and ex.get("consumers", 0) > 1:
+            v2["class"] = "no_same_index_consumer_among_several"
+        V.add_violation(v2, replay=jobs_by_id.get(v.get("job")))
+    V.sample({"template": T[1][0], "rules": T[1][2]})
+
+
 def replay(pid, path, V):
     with open(path) as f:
         data = json.load(f)
